@@ -17,6 +17,10 @@ sys.path.insert(0, HERE)
 
 CHECKS = {
     "C01": "checks.c01",
+    "C02": "checks.c02",
+    "C05": "checks.c05",
+    "C11": "checks.c11",
+    "C19": "checks.c19",
     "C06": "checks.c06",
     "C08": "checks.c08",
     "C10": "checks.c10",
